@@ -93,7 +93,12 @@ pub fn par_run<T: Send>(ctx: &Ctx, items: Vec<T>, f: impl Fn(T, &mut Worker) + S
                             break;
                         }
                         let item = slots[i].lock().unwrap().take().unwrap();
-                        f(item, &mut w);
+                        // a panic of the harness itself (not of the library: those are caught at
+                        // the call) must not take the other items' observations with it
+                        let wr = &mut w;
+                        if let Err(p) = crate::libcall::guard(move || f(item, wr)) {
+                            w.report.inconclusive(&format!("HARNESS: a driver work item panicked at {}: {}", p.location, p.message));
+                        }
                     }
                     w.report.count("model_tree_builds", w.cache.builds as i128);
                     reports.lock().unwrap().push(w.report);
